@@ -182,6 +182,7 @@ package ftp
 //@ func (*ftpPassiveSocket).GoListenAndServe$1
 //@   check safety
 //@   requires listener != nil && socket != nil
+//@   ensures [released-after-accept] listener.lclosed
 //@   modifies *
 //
 // ---- per-connection command log (properties C09 and C03) ----
@@ -191,4 +192,16 @@ package ftp
 //@ func (*ftpService).Handle
 //@   callpre (*Server).newConn: fresh(recv)
 //@   ensures [pump-ends] closed(recv)
+//@   modifies *
+//
+// ---- passive data sockets (property C09): the listening socket is released ----
+// The listener opened for PASV/EPSV is remembered by the socket; the acceptor goroutine closes it after
+// the one data connection (or the failure to accept one), and Close closes it as well, which ends an
+// acceptor still waiting. lclosed is the ghost "Close has been called" of net.Listener.
+//@ func (*ftpPassiveSocket).GoListenAndServe
+//@   ensures [remembered] err == nil ==> socket.listener != nil
+//@   modifies *
+//@ func (*ftpPassiveSocket).Close
+//@   check safety
+//@   ensures [released] socket.listener != nil ==> socket.listener.lclosed
 //@   modifies *
